@@ -721,3 +721,134 @@ def render_val(v, depth=0):
         if v[0] == "view":
             return "seq(%s)[%d..]" % (v[1].side, v[2])
     return str(v)
+
+
+# ------------------------------------------------------------------------------------------------------------------
+# the canonicalising append: a vector of blocks kept ascending and apart while blocks arrive in (hoped-for) order
+
+T_GENITER = re.compile(r"^<I as std::iter::IntoIterator>::IntoIter$|^I$|^std::vec::IntoIter<T>$|^std::slice::Iter<'_, T>$")
+
+
+class AppendSweep:
+    """One round of `OwnedChain::from_iter`'s fast path: the next input block X against the last block T of the result
+    built so far (whose earlier blocks all end before T.min − 1).  Admissible: hand everything over to another function
+    (result, X and the rest of the input unchanged) — or go on with the tail of the result replaced by the canonical form
+    of T ∪ X, and that only when X does not start before T (it could touch earlier blocks otherwise)."""
+
+    def __init__(self, facts, body, vmax=8):
+        self.f, self.b, self.vmax = facts, body, vmax
+        self.m = SX.Machine(facts, vmax)
+        self.m.delegates = []
+        self.live = SX.liveness(body)
+        self.heads = sorted(SX.loop_heads(body))
+        if len(self.heads) != 1:
+            raise Unsupported("%d loops in %s" % (len(self.heads), body.name))
+        h = self.heads[0]
+        self.out = [l for l in self.live[h] if T_VEC.match(body.local_ty(l))]
+        self.src = [l for l in self.live[h] if T_GENITER.match(body.local_ty(l)) and l not in self.out]
+        other = [l for l in self.live[h] if l not in self.out and l not in self.src]
+        if len(self.out) != 1 or len(self.src) != 1 or other:
+            raise Unsupported("state of the append loop is not (result vector, input iterator): vectors %s, iterators %s, other %s"
+                              % (self.out, self.src, [(l, body.local_ty(l)) for l in other]))
+        self.problems, self.rounds, self.states = [], 0, 0
+
+    def run(self):
+        h = self.heads[0]
+        ivs = intervals(self.vmax)
+        for T in [None] + ivs:
+            for X in [None] + ivs:
+                self.states += 1
+
+                def mk(T=T, X=X):
+                    seq = Seq("input", [("block", X[0], X[1], ("state", "input"))] if X else [], ended=X is None)
+                    env = {self.src[0]: ("view", seq, 0),
+                           self.out[0]: ("vec", ("sym", "R0"), (("block", T[0], T[1], ("state", "last")),)) if T else ("vec", None, ())}
+                    return env, seq
+                self.m.delegates = []
+                try:
+                    outs = self.m.explore(mk, self.b, h, {h})
+                except Unsupported as e:
+                    self.problems.append({"state": self.fmt(T, X), "unsupported": True, "problem": "cannot interpret the round: %s" % e})
+                    if len(self.problems) > 3:
+                        return self.problems
+                    continue
+                for oc, seq in outs:
+                    self.rounds += 1
+                    try:
+                        for p in self.judge(T, X, oc, seq):
+                            self.problems.append({"state": self.fmt(T, X), "problem": p})
+                    except Unsupported as e:
+                        self.problems.append({"state": self.fmt(T, X), "unsupported": True, "problem": "cannot read what the round did: %s" % e})
+                if len([p for p in self.problems if not p.get("unsupported")]) > 12:
+                    return self.problems
+        return self.problems
+
+    @staticmethod
+    def fmt(T, X):
+        return "last=%s next=%s" % ("%d-%d" % T if T else "none", "%d-%d" % X if X else "none")
+
+    def judge(self, T, X, oc, seq):
+        if oc.kind == "panic":
+            return ["the round panics: %s" % oc.ret]
+        start_items = ((T[0], T[1]),) if T else ()
+        start_base = ("sym", "R0") if T else None
+
+        def vec_of(v):
+            if isinstance(v, tuple) and v and v[0] == "chain":
+                v = v[1]
+            if not (isinstance(v, tuple) and v and v[0] == "vec"):
+                raise Unsupported("result is %s" % SX._kind(v))
+            items = []
+            for it in v[2]:
+                if not SX.is_concrete_block(it):
+                    raise Unsupported("a stored block has unknown bounds")
+                items.append((it[1], it[2]))
+            return v[1], tuple(items)
+        if oc.kind == "return":
+            v = oc.ret
+            if isinstance(v, tuple) and v and v[0] == "delegated":
+                args = v[2]
+                vecs = [a for a in args if isinstance(a, tuple) and a and a[0] == "vec"]
+                blks = [a for a in args if isinstance(a, tuple) and a and a[0] == "block"]
+                views = [a for a in args if isinstance(a, tuple) and a and a[0] == "view"]
+                if len(vecs) != 1 or len(blks) != 1 or len(views) != 1:
+                    raise Unsupported("hand-over with arguments %s" % [SX._kind(a) for a in args])
+                base, items = vec_of(vecs[0])
+                out = []
+                if base != start_base or items != start_items:
+                    out.append("hands over a result that is not the one built so far: %s" % (items,))
+                if X is None or (blks[0][1], blks[0][2]) != X:
+                    out.append("hands over %s-%s instead of the block just read" % (blks[0][1], blks[0][2]))
+                if views[0][2] != 1:
+                    out.append("hands over the input at the wrong position")
+                return out
+            if X is not None:
+                return ["returns although the input has another block"]
+            base, items = vec_of(v)
+            return [] if (base == start_base and items == start_items) else ["returns %s, not the result built so far" % (items,)]
+        # the loop goes on
+        lo = self.out[0]
+        base, items = vec_of(self.m.deref_val(oc.env, oc.env.get(lo, TOP)))
+        sv = self.m.deref_val(oc.env, oc.env.get(self.src[0], TOP))
+        out = []
+        if X is None:
+            return ["goes round the loop without an input block"]
+        if not (isinstance(sv, tuple) and sv[0] == "view" and sv[2] == 1):
+            out.append("does not consume exactly the block just read")
+        if base != start_base:
+            out.append("the blocks stored before the last one are replaced")
+        if T is not None and X[0] < T[0]:
+            out.append("goes on in place although the new block starts before the last one (it may reach earlier blocks)")
+        want = iset(T) | iset(X)
+        got = set()
+        prev = None
+        for it in items:
+            if it[0] > it[1]:
+                out.append("stores the inverted block %d-%d" % it)
+            if prev is not None and it[0] <= prev + 1:
+                out.append("stores blocks that are not ascending and apart: %s" % (items,))
+            prev = it[1]
+            got |= iset(it)
+        if got != want:
+            out.append("stores %s for last ∪ next = %s" % (rng(got), rng(want)))
+        return out
